@@ -217,6 +217,9 @@ EffCfg(c, o) ==
 
 (* recomposed from the OBSERVED inner metadata: name, version string (without epoch), architecture *)
 StripEpoch(s) == LET i == IndexOf(s, ":") IN IF i = 0 THEN s ELSE SubSeq(s, i + 1, Len(s))
+IdentKeys(f) == CASE f \in {"deb", "ipk"} -> {<<"control", "Package">>, <<"control", "Version">>, <<"control", "Architecture">>}
+                  [] f \in {"apk", "archlinux"} -> {<<"pkginfo", "pkgname">>, <<"pkginfo", "pkgver">>, <<"pkginfo", "arch">>}
+                  [] OTHER -> {}
 FileNameClauses(f, c, fname, evs) ==
   LET inner ==
         CASE f \in {"deb", "ipk"} -> Meta1(evs, "control", "Package") \o "_" \o StripEpoch(Meta1(evs, "control", "Version")) \o "_" \o
@@ -228,6 +231,9 @@ FileNameClauses(f, c, fname, evs) ==
       ELSE IF f = "archlinux" /\ fname = ExpFileName(f, c) /\ Meta1(evs, "pkginfo", "pkgver") = ArchVersionAsIs(c)
            THEN {"C15.filename_matches_inner_metadata@ArchPrereleaseNeedsEpoch"}
       ELSE {"C15.filename_matches_inner_metadata"})
+     \* "the" inner metadata: each field the name is made of is stated once (a second Architecture line - the one a reader
+     \* that keeps the last value goes by - is metadata the name does not state)
+     \cup (IF \E k \in IdentKeys(f) : HasMeta(evs, k[1], k[2]) /\ Len(MetaVals(evs, k[1], k[2])) # 1 THEN {"C15.filename_matches_inner_metadata"} ELSE {})
      \cup (IF ~HasSuffix(fname, Ext(f)) THEN {"C15.conventional_extension"} ELSE {})
      \cup (IF fname # ExpFileName(f, c) THEN {"C15.filename_composition"} ELSE {})
 =============================================================================
